@@ -2,6 +2,7 @@ package spec
 
 import (
 	"fmt"
+	"reflect"
 	"time"
 
 	z "github.com/Oudwins/zog"
@@ -461,6 +462,21 @@ func (b *builder) buildStruct(n *Node) z.ZogSchema {
 	if n.ViaMerge {
 		return deriveStruct(n, b.buildStructViaMerge(n, order, sch).(*z.StructSchema))
 	}
+	// Derive 5: a stand-in (the same node with an extra always-failing test) sits at one primitive field until the base was used once
+	standInKey := ""
+	var realChild z.ZogSchema
+	if n.Derive == 5 {
+		for _, i := range order {
+			f := &n.Fields[i]
+			if f.Node.Kind.IsPrimitive() {
+				dn := *f.Node
+				dn.Tests = append(append([]Test{}, f.Node.Tests...), Test{Op: TCustom, PredName: "stand-in:false", Pred: func(any) bool { return false }})
+				standInKey, realChild = f.Key, sch[f.Key]
+				sch[f.Key] = b.build1(&dn)
+				break
+			}
+		}
+	}
 	s := z.Struct(sch)
 	for i := range n.Tests {
 		t := &n.Tests[i]
@@ -476,6 +492,17 @@ func (b *builder) buildStruct(n *Node) z.ZogSchema {
 	}
 	for i := range n.Posts {
 		s = s.PostTransform(b.post(n, &n.Posts[i]))
+	}
+	if standInKey != "" {
+		// use the base once (no callbacks of the harness are to see this call), then override the stand-in with the real field
+		saved := b.h
+		b.h = &Hooks{}
+		func() {
+			defer func() { _ = recover() }()
+			s.Parse(map[string]any{}, reflect.New(n.GoType()).Interface())
+		}()
+		b.h = saved
+		return s.Extend(z.Schema{standInKey: realChild})
 	}
 	return deriveStruct(n, s)
 }
